@@ -501,6 +501,22 @@ func (fg *FuncGen) recordCall(cl *callee, args []Val, guard string) {
 		srt := fmt.Sprintf("(Array Int %s)", fg.enc.sortOf(a.Typ))
 		arr := fg.ghostGet(st, cell, srt, "")
 		fg.ghostSet(st, cell, srt, ite(guard, fmt.Sprintf("(store %s %s %s)", arr, cnt, a.T), arr))
+		// the set of values passed as argument j so far, and of (argument j, argument j2) pairs
+		cw := fmt.Sprintf("$cw:%s:%d", name, j)
+		if csrt, ok := fg.ghostSort[cw]; ok {
+			set := fg.ghostGet(st, cw, csrt, fg.ghostInits[cw])
+			fg.ghostSet(st, cw, csrt, ite(guard, fmt.Sprintf("(store %s %s true)", set, a.T), set))
+		}
+		for j2, a2 := range args {
+			if j2 <= j || a2.T == "" || a2.Typ == nil {
+				continue
+			}
+			cw2 := fmt.Sprintf("$cw2:%s:%d:%d", name, j, j2)
+			if csrt, ok := fg.ghostSort[cw2]; ok {
+				set := fg.ghostGet(st, cw2, csrt, fg.ghostInits[cw2])
+				fg.ghostSet(st, cw2, csrt, ite(guard, fmt.Sprintf("(store %s %s (store (select %s %s) %s true))", set, a.T, set, a.T, a2.T), set))
+			}
+		}
 	}
 	if fg.pendingFnVal != "" {
 		// the function value a dynamic call went through
